@@ -247,7 +247,12 @@ enum
 template <int K>
 static inline uint32_t pack8(float f)
 {
-  return K == PACK_LIN ? rk::cvt_uint32(f) : rk::cvt_uint32(rk::linear_to_srgb(f));
+  if (K == PACK_LIN)
+    return rk::cvt_uint32(f);
+  const float s = rk::linear_to_srgb(f);
+  if (s != s)  // NaN from a non-NaN input: report it as an out-of-range packing instead of executing the
+    return 0xffffffffu;  // float->uint32 cast of a NaN inside cvt_uint32 (undefined behaviour)
+  return rk::cvt_uint32(s);
 }
 static const char *const PACK_CLS[] = {"f<=0 (must be 0)", "0<f<1", "f>=1 (must be 255)", "skipped-nan", "steps(value increased)"};
 template <int K>
